@@ -71,6 +71,15 @@ func (h *HelloPingHandler) setActive(remote netip.Addr, helloState *helloPingSta
 	h.active[remote] = helloState
 }
 
+func (h *HelloPingHandler) removeActive(remote netip.Addr, helloState *helloPingState) {
+	h.activeLock.Lock()
+	defer h.activeLock.Unlock()
+
+	if h.active[remote] == helloState {
+		delete(h.active, remote)
+	}
+}
+
 // Clean cleans any internal state of the ping handler.
 func (h *HelloPingHandler) Clean(w *mgr.WorkerCtx) error {
 	h.activeLock.Lock()
@@ -175,6 +184,23 @@ func (h *HelloPingHandler) handlePingHelloRequest(w *mgr.WorkerCtx, f frame.Fram
 		return fmt.Errorf("unmarshal request: %w", err)
 	}
 
+	// Resolve concurrent key setups: if both routers sent a request at the same
+	// time, serving the remote request and completing the own one would leave
+	// both sides "set up" with keys from two different exchanges. Only the setup
+	// of the router with the lower address continues.
+	var abandoned *helloPingState
+	if pending := h.getActive(f.SrcIP()); pending != nil && !pending.done.Load() {
+		if h.r.instance.Identity().IP.Compare(f.SrcIP()) < 0 {
+			// Our request wins, ignore the remote request.
+			return nil
+		}
+		// The remote request wins, abandon our own request.
+		if pending.done.CompareAndSwap(false, true) {
+			h.removeActive(f.SrcIP(), pending)
+			abandoned = pending
+		}
+	}
+
 	// Do key exchange.
 	session := h.r.instance.State().GetSession(f.SrcIP())
 	if session == nil {
@@ -186,6 +212,10 @@ func (h *HelloPingHandler) handlePingHelloRequest(w *mgr.WorkerCtx, f frame.Fram
 	}
 	if request.MTU > 0 {
 		session.SetTunMTU(request.MTU)
+	}
+	if abandoned != nil {
+		// Keys are set up by the remote request, notify waiters of our own request.
+		close(abandoned.notify)
 	}
 
 	// Create response and send it.
